@@ -1,6 +1,8 @@
 
 #define VALUEMACROS_H "$Id$\n"
 
+#include <math.h>
+
 #define VALUE_TYPE float
 #undef VALUE_TYPE_IS_PYOBJECT
 #define TEST_VALUE(K, T) (((K) < (T)) ? -1 : (((K) > (T)) ? 1: 0))
@@ -12,8 +14,38 @@
 #define COPY_VALUE(V, E) (V=(E))
 #define COPY_VALUE_TO_OBJECT(O, K) O=PyFloat_FromDouble(K)
 
+/* Convert a double to the stored single-precision value.  Returns 0 (and
+   sets TypeError) when a finite double is beyond the range of a float:
+   like an out-of-range int it is rejected, not stored as infinity. */
+static int
+float_value_from_double(double dcopy, float *target)
+{
+    float fcopy;
+
+    if (dcopy != dcopy || dcopy - dcopy != 0.0) {
+        /* nan, +inf, -inf convert exactly */
+        *target = (float)dcopy;
+        return 1;
+    }
+    /* 2**128: everything at or beyond it is out of range; below it the
+       cast is well defined and rounds to FLT_MAX or to infinity */
+    if (dcopy >= 3.4028236692093846e+38 || dcopy <= -3.4028236692093846e+38)
+        fcopy = (float)HUGE_VAL;
+    else
+        fcopy = (float)dcopy;
+    if (fcopy - fcopy != 0.0f) {
+        PyErr_SetString(PyExc_TypeError, "float out of range");
+        return 0;
+    }
+    *target = fcopy;
+    return 1;
+}
+
 #define COPY_VALUE_FROM_ARG(TARGET, ARG, STATUS)                        \
-  if (PyFloat_Check(ARG)) TARGET = (float)PyFloat_AsDouble(ARG);        \
+  if (PyFloat_Check(ARG)) {                                             \
+      if (!float_value_from_double(PyFloat_AsDouble(ARG), &(TARGET))) { \
+        (STATUS)=0; (TARGET)=0; }                                       \
+  }                                                                     \
   else if (PyLong_Check(ARG)) {                                         \
       /* not PyLong_AsLong():  its error return was never checked, so  \
          an int beyond C long stored -1.0 and left the exception set */ \
@@ -25,7 +57,8 @@
         }                                                               \
         (STATUS)=0; (TARGET)=0;                                         \
       }                                                                 \
-      else TARGET = (float)dcopy;                                       \
+      else if (!float_value_from_double(dcopy, &(TARGET))) {            \
+        (STATUS)=0; (TARGET)=0; }                                       \
   }                                                                     \
   else {                                                                \
       PyErr_SetString(PyExc_TypeError, "expected float or int value");  \
